@@ -134,12 +134,18 @@ func checkAdditiveBounds(p *Program, r *Result, rule string, fns []*ssa.Function
 // sumForm is a linear combination of opaque SSA values (and len(x) terms, identified by x) plus a constant.
 type sumForm struct {
 	coef map[string]int64
+	vals map[string]ssa.Value
 	k    int64
+}
+
+func (l *sumForm) atom(key string, v ssa.Value, sign int64) {
+	l.coef[key] += sign
+	l.vals[key] = v
 }
 
 func linearize(v ssa.Value, sign int64, out *sumForm, depth int) {
 	if depth > 8 {
-		out.coef[fmtPtr(v)] += sign
+		out.atom(fmtPtr(v), v, sign)
 		return
 	}
 	switch x := v.(type) {
@@ -166,14 +172,16 @@ func linearize(v ssa.Value, sign int64, out *sumForm, depth int) {
 		}
 	case *ssa.Call:
 		if b, ok := x.Call.Value.(*ssa.Builtin); ok && b.Name() == "len" && len(x.Call.Args) == 1 {
-			out.coef["len:"+fmtPtr(x.Call.Args[0])] += sign
+			out.atom("len:"+fmtPtr(x.Call.Args[0]), x, sign)
 			return
 		}
 	}
-	out.coef[fmtPtr(v)] += sign
+	out.atom(fmtPtr(v), v, sign)
 }
 
-func newSumForm() *sumForm { return &sumForm{coef: map[string]int64{}} }
+func newSumForm() *sumForm {
+	return &sumForm{coef: map[string]int64{}, vals: map[string]ssa.Value{}}
+}
 
 func (l *sumForm) clean() {
 	for k, c := range l.coef {
